@@ -80,9 +80,6 @@ var xrunStuck atomic.Int64
 var xrunWriters sync.Map
 
 func xrunHook(point string) {
-	if yrunTrace {
-		fmt.Printf("%s hook g%d %s\n", time.Now().Format("05.000000"), verifhook.GoID(), point)
-	}
 	if point != "bus.send.beforeListener" {
 		return
 	}
